@@ -145,6 +145,8 @@ Section Ev.
     exists st, emits s (apply_one sc pl g s p) [EApply g (p_id p) st].
   Proof.
     intros HL. unfold apply_one. destruct (p_local p) as [l|]; [|congruence].
+    destruct (negb (kind_known sc (r_known s) (p_id p))).
+    { eexists. eapply emits_nil_r; [apply emits_ev|apply e_rec_add]. }
     pose proof (e_policy_apply_filter s (p_id p)) as P.
     destruct (policy_apply_filter sc s (p_id p)) as [s1 f1]. cbn [fst] in P.
     destruct (match f1 with FPass => _ | _ => _ end).
@@ -406,8 +408,12 @@ Section Ev3.
     { intros s' es2 E2 F2. exists (es1 ++ es2). split; [exact (emits_trans _ _ _ _ _ E1 E2)|].
       destruct B1 as [B1a B1b]. split; [apply Forall_app; split; assumption|].
       intros i Hi. destruct (B1b i Hi) as [st H]. exists st. apply in_or_app. left. exact H. }
+    assert (EXTR : forall s' es2, emits s1 s' es2 -> Forall (wait_ev g ids) es2 ->
+                  exists es, emits s (wait_reset sc c ids s') es /\ wait_body g ids es).
+    { intros s' es2 E2 F2. apply (EXT _ es2); [|exact F2]. eapply emits_nil_r; [exact E2|].
+      apply emits_same. apply wait_reset_tr. }
     destruct (w_pending w1) eqn:EP1.
-    - apply (EXT s1 []); [apply emits_refl|constructor].
+    - apply (EXTR s1 []); [apply emits_refl|constructor].
     - rewrite <- EP1 in *. clear EP1.
       destruct (match e_watch_err_at (sc_env sc) with Some n => Nat.eqb n (snd g) | None => false end).
       + apply (EXT _ []); [apply e_set_abort|constructor].
@@ -415,12 +421,12 @@ Section Ev3.
           as [es2 [E2 [F2 P2]]].
         destruct (deliver sc c g ids _ s1 w1) as [s2 w2]. cbn [fst snd] in *.
         destruct (w_pending w2) eqn:EP2.
-        * apply (EXT s2 es2); assumption.
+        * apply (EXTR s2 es2); assumption.
         * rewrite <- EP2 in *. clear EP2.
           destruct (w_end _).
           -- destruct (match c with AllCurrent => _ | AllNotFound => _ end).
              ++ destruct (e_wait_timeout g ids s2 w2 P2) as [es3 [E3 F3]].
-                apply (EXT _ (es2 ++ es3)); [exact (emits_trans _ _ _ _ _ E2 E3)|apply Forall_app; split; assumption].
+                apply (EXTR _ (es2 ++ es3)); [exact (emits_trans _ _ _ _ _ E2 E3)|apply Forall_app; split; assumption].
              ++ apply (EXT _ es2); [eapply emits_nil_r; [exact E2|apply e_set_abort]|exact F2].
           -- apply (EXT _ es2); [eapply emits_nil_r; [exact E2|apply e_set_abort]|exact F2].
   Qed.
@@ -543,8 +549,8 @@ Section Ev4.
     apply in_map_iff in HL. destruct HL as [l [<- _]]. eapply pick_In. exact Hp.
   Qed.
 
-  Lemma plan_apply_local locals pobjs layer p :
-    In layer (pl_apply_layers (build_plan sc locals pobjs)) -> In p layer -> p_local p <> None.
+  Lemma plan_apply_local known locals pobjs layer p :
+    In layer (pl_apply_layers (build_plan sc known locals pobjs)) -> In p layer -> p_local p <> None.
   Proof.
     unfold build_plan. cbv zeta.
     destruct (kahn _ _ _) as [layers cyc]. cbn [pl_apply_layers].
@@ -552,8 +558,8 @@ Section Ev4.
     apply filter_In in H. destruct H as [H _]. apply in_map_iff in H. destruct H as [l [<- _]]. discriminate.
   Qed.
 
-  Lemma plan_prune_live locals pobjs layer p :
-    In layer (pl_prune_layers (build_plan sc locals pobjs)) -> In p layer -> live_ok p.
+  Lemma plan_prune_live known locals pobjs layer p :
+    In layer (pl_prune_layers (build_plan sc known locals pobjs)) -> In p layer -> live_ok p.
   Proof.
     unfold build_plan. cbv zeta.
     destruct (kahn _ _ _) as [layers cyc]. cbn [pl_prune_layers].
@@ -590,9 +596,9 @@ Section Ev4.
     constructor; [exact I|apply IH; exact Ht].
   Qed.
 
-  Lemma tasks_of_wf locals pobjs : Forall task_wf (tasks_of sc (build_plan sc locals pobjs)).
+  Lemma tasks_of_wf known locals pobjs : Forall task_wf (tasks_of sc (build_plan sc known locals pobjs)).
   Proof.
-    unfold tasks_of. set (pl := build_plan sc locals pobjs).
+    unfold tasks_of. set (pl := build_plan sc known locals pobjs).
     assert (A : Forall task_wf (fst (match pl_apply pl with [] => ([], 0) | _ => apply_tasks sc 0 0 (pl_apply_layers pl) end))).
     { destruct (pl_apply pl); [constructor|]. apply apply_tasks_wf. intros layer q. apply plan_apply_local. }
     destruct (match pl_apply pl with [] => ([], 0) | _ => apply_tasks sc 0 0 (pl_apply_layers pl) end) as [at_ kw].
@@ -628,6 +634,7 @@ Section Ev4.
   Lemma e_fetch_all ids : forall s, emits s (fst (fetch_all sc s ids)) [].
   Proof.
     induction ids as [|i t IH]; intros s; cbn [fetch_all]; [apply emits_refl|].
+    destruct (negb (kind_known sc (r_known s) i)); [apply IH|].
     pose proof (e_get_obj sc s i) as G. destruct (get_obj sc s i) as [s1 g]. cbn [fst] in G.
     destruct g; cbn [fst]; [exact G|eapply emits_nil_trans; [exact G|apply IH]|].
     specialize (IH s1). destruct (fetch_all sc s1 t) as [s2 r]. cbn [fst] in *.
@@ -649,11 +656,11 @@ Section Ev4.
     - apply F.
   Qed.
 
-  Lemma e_run_state c0 : exists es, emits (init_state c0) (run_state sc c0) es /\ run_events es.
+  Lemma e_run_state c0 : exists es, emits (init_state sc c0) (run_state sc c0) es /\ run_events es.
   Proof.
     unfold run_state. cbv zeta.
-    pose proof (e_inv_list sc (init_state c0)) as L1.
-    destruct (inv_list sc (init_state c0)) as [s1 r1]. cbn [fst] in L1.
+    pose proof (e_inv_list sc (init_state sc c0)) as L1.
+    destruct (inv_list sc (init_state sc c0)) as [s1 r1]. cbn [fst] in L1.
     destruct r1 as [st|].
     2:{ exists [EError]. split; [|constructor]. eapply emits_nil_l; [exact L1|apply emits_ev]. }
     match goal with |- context [fetch_all sc s1 ?c] => pose proof (e_fetch_all c s1) as F;
@@ -661,16 +668,16 @@ Section Ev4.
     destruct r2 as [pobjs|].
     2:{ exists [EError]. split; [|constructor]. eapply emits_nil_l; [exact L1|]. eapply emits_nil_l; [exact F|apply emits_ev]. }
     set (locals := if o_destroy (sc_opts sc) then [] else sc_local sc).
-    set (pl := build_plan sc locals pobjs).
+    set (pl := build_plan sc (r_known s2) locals pobjs).
     pose proof (e_register pl s2) as R.
     pose proof (e_inv_list sc (register sc pl s2)) as L4.
     destruct (inv_list sc (register sc pl s2)) as [s4 r4]. cbn [fst] in L4.
-    assert (S4 : emits (init_state c0) s4 []).
+    assert (S4 : emits (init_state sc c0) s4 []).
     { eapply emits_nil_trans; [exact L1|]. eapply emits_nil_trans; [exact F|]. eapply emits_nil_trans; [exact R|exact L4]. }
     set (prev := option_map (fun st0 : option (list id) => match st0 with Some l => l | None => [] end) r4).
     set (initev := EInit (map (fun t => (task_name t, task_ids pl t)) (tasks_of sc pl))).
     assert (TASKS : forall errs, exists es,
-              emits (init_state c0)
+              emits (init_state sc c0)
                 (match e_cancel (sc_env sc) with
                  | CBeforeSync => ev (ev (fold_left (fun s e => ev s (EValidation (sortn e))) errs s4) initev) EError
                  | _ => run_tasks sc pl locals prev
@@ -678,10 +685,10 @@ Section Ev4.
                  end) es /\ run_events es).
     { intros errs. destruct (e_validation errs s4) as [vals [Ev Fv]].
       set (s6 := ev (fold_left (fun s e => ev s (EValidation (sortn e))) errs s4) initev).
-      assert (E6 : emits (init_state c0) s6 (vals ++ [initev])).
+      assert (E6 : emits (init_state sc c0) s6 (vals ++ [initev])).
       { eapply emits_nil_l; [exact S4|]. eapply emits_trans; [exact Ev|apply emits_ev]. }
-      assert (RT : exists es, emits (init_state c0) (run_tasks sc pl locals prev s6 (tasks_of sc pl)) es /\ run_events es).
-      { destruct (e_run_tasks sc pl locals prev (tasks_of sc pl) (tasks_of_wf locals pobjs) s6) as [es [E T]].
+      assert (RT : exists es, emits (init_state sc c0) (run_tasks sc pl locals prev s6 (tasks_of sc pl)) es /\ run_events es).
+      { destruct (e_run_tasks sc pl locals prev (tasks_of sc pl) (tasks_of_wf (r_known s2) locals pobjs) s6) as [es [E T]].
         exists (vals ++ initev :: es). split.
         - pose proof (emits_trans _ _ _ _ _ E6 E) as H. rewrite <- app_assoc in H. exact H.
         - apply re_tasks; assumption. }
